@@ -379,3 +379,11 @@ func c08r6(r *R) {
 		})
 	}
 }
+
+func init() {
+	p := registry["C08"]
+	p.Rules = append(p.Rules, ruleDef{"C08.R7", func(r *R) {
+		forkSiblingRule(r, "C08.R7", "pipe.go", "databuffer.go", "write.go", "server.go")
+	}})
+	wantRefs("C08")
+}
